@@ -192,6 +192,20 @@ def model_from_compact(counts, p, q):
 
 
 # --------------------------------------------------------------------------
+def _cand(mdl, states):
+    """The epoch's candidate states in the container the case uses: a list (default), or another sequence a state
+    function may just as well return -- a tuple, a numpy array, a range (for consecutive labels)."""
+    c = getattr(mdl, "container", None)
+    if c == "tuple":
+        return tuple(states)
+    if c == "ndarray":
+        import numpy as np
+        return np.array(states)
+    if c == "range" and list(states) == list(range(states[0], states[0] + len(states))):
+        return range(states[0], states[0] + len(states))
+    return states
+
+
 def _sym(y):
     """Observation symbol from what tracklib hands to P: the scalar feature
     value, or the Coords object built in the 2-D observation mode."""
@@ -209,7 +223,7 @@ def decode_with_tracklib(mdl, log, mode="scalar", verbose=0, ctor=False, trace=N
     states = mdl.states
 
     def S(track, k):
-        return states[k]
+        return _cand(mdl, states[k])
 
     if log and not rawlog:
         def Qf(s1, s2, k, track):
@@ -304,7 +318,7 @@ def decode_on_track(mdl, tr, log=False):
     from tracklib.algo.dynamics import HMM
 
     def S(track, k):
-        return mdl.states[k]
+        return _cand(mdl, mdl.states[k])
 
     def Qf(s1, s2, k, track):
         v = mdl.Q(s1, s2, k)
@@ -463,6 +477,8 @@ def chunks(tier, seed):
     for k in range(NCH_RND[tier]):
         out.append({"kind": "rnd", "shard": k, "key": "rnd%d" % k, "n": N_RND[tier],
                     "family": FAMILIES[k % len(FAMILIES)]})
+    for k in range(4 if tier == "quick" else 16):
+        out.append({"kind": "rnd", "shard": k, "key": "wide%d" % k, "n": 4 if tier == "quick" else 12, "family": "wide"})
     return out
 
 
@@ -508,6 +524,31 @@ def _value(rng, fam):
 
 
 def gen_model(rng, fam):
+    if fam == "wide":
+        # larger scale: 65..110 candidate states per epoch (a dense road network around each fix), unnormalised
+        # likelihoods up to 2 with zeros; judged against the exact max-product recursion
+        T = rng.choice([2, 3, 4, 5])
+        U = 112
+        stationary = rng.random() < 0.5
+        if stationary:
+            lab = rng.sample(range(U), rng.randint(65, 110))
+            states = [list(lab) for _ in range(T)]
+        else:
+            states = [rng.sample(range(U), rng.choice([rng.randint(65, 110), rng.randint(65, 110), rng.randint(3, 70)]))
+                      for _ in range(T)]
+        vf = rng.choice(["grid8", "real2", "real"])
+
+        def v():
+            if vf == "real2":
+                return 0.0 if rng.random() < 0.1 else rng.randrange(1 << 10, (1 << 21) + 1) / float(1 << 20)
+            return _value(rng, vf)
+        Pt = [[v()] for _ in range(U)]
+        Qt = [[v() for _ in range(U)] for _ in range(U)]
+        if not stationary:
+            Pt = [Pt] + [[[v()] for _ in range(U)] for _ in range(T - 1)]
+            Qt = [Qt] + [[[v() for _ in range(U)] for _ in range(U)] for _ in range(T - 1)]
+        return {"kind": "rnd", "family": fam, "T": T, "states": states, "obs": [0] * T, "stationary": stationary,
+                "P": Pt, "Q": Qt, "mode": "scalar", "verbose": 0, "ctor": rng.random() < 0.5}
     T = rng.choice([1, 2, 2, 3, 3, 4, 4, 5, 5, 6, 6, 7, 8])
     U = 6
     Y = rng.choice([1, 2, 3])
@@ -535,9 +576,12 @@ def gen_model(rng, fam):
     else:
         Pt = [[[val() for _ in range(Y)] for _ in range(U)] for _ in range(T)]
         Qt = [[[val() for _ in range(U)] for _ in range(U)] for _ in range(T)]
-    return {"kind": "rnd", "family": fam, "T": T, "states": states, "obs": obs, "stationary": stationary,
-            "P": Pt, "Q": Qt, "mode": rng.choice(["scalar", "scalar", "2d"]),
-            "verbose": rng.choice([0, 0, 0, 0, 1, 2, 3]), "ctor": rng.random() < 0.5}
+    c = {"kind": "rnd", "family": fam, "T": T, "states": states, "obs": obs, "stationary": stationary,
+         "P": Pt, "Q": Qt, "mode": rng.choice(["scalar", "scalar", "2d"]),
+         "verbose": rng.choice([0, 0, 0, 0, 1, 2, 3]), "ctor": rng.random() < 0.5}
+    if rng.random() < 0.25:
+        c["container"] = rng.choice(["tuple", "ndarray", "range"])
+    return c
 
 
 def cases(chunk):
@@ -677,6 +721,12 @@ def run_rnd(case, ctx):
     for c in counts:
         nseq *= c
     cls = [case["family"], "stationary" if case["stationary"] else "per_epoch"]
+    if case.get("container"):
+        mdl.container = case["container"]
+        cls.append("candidates_returned_as_" + case["container"])
+    wide = case["family"] == "wide"
+    if wide:
+        cls.append("more_than_64_candidates_per_epoch")
     if nseq <= ENUM_LIMIT:
         best, nbest, _ = enum_best(p, q, counts)
         if nseq <= 3000:
@@ -740,7 +790,7 @@ def run_rnd(case, ctx):
             if not M.feq(out[1][T - 1], out2[1][T - 1], 2e-9, 2e-9):
                 w = {"what": "log mode and likelihood mode record different optimal costs",
                      "cost_likelihood_mode": out[1][T - 1], "cost_log_mode": out2[1][T - 1]}
-    if w is None and int(sig[:4], 16) % 3 == 0:
+    if w is None and int(sig[:4], 16) % 3 == 0 and not wide:
         # re-run history: same HMM object, same track object, other candidate lists (same tables, which are total
         # over the label universe); the second decoding is judged against the second model
         import random
@@ -771,7 +821,7 @@ def run_rnd(case, ctx):
                 cls.append("history_rerun")
                 if w is not None:
                     w.update({"first_run_states": states, "second_run_states": states2})
-    if w is None and T >= 2 and int(sig[4:8], 16) % 3 == 0:
+    if w is None and T >= 2 and int(sig[4:8], 16) % 3 == 0 and not wide:
         # derived objects: two portions of one parent track (extracts share the parent's observation objects) are
         # decoded one after the other, each with the part of the model that concerns it
         parent = gen.make_track([(float(case["obs"][k]), float(k), 0.0) for k in range(T)])
@@ -825,7 +875,8 @@ def classify(case, witness):
 
 # floors for the call-history workloads added in session 3 (a run in which they were silently skipped is inconclusive)
 _floors_base = floors
-_FLOORS_EXTRA = {'classes': {'history_rerun': 500}}
+_FLOORS_EXTRA = {'classes': {'history_rerun': 500, 'more_than_64_candidates_per_epoch': 12,
+                             'candidates_returned_as_tuple': 100, 'candidates_returned_as_ndarray': 100}}
 
 
 def floors(tier):
